@@ -4,6 +4,7 @@ import (
 	"bytes"
 	"context"
 	"fmt"
+	"sync"
 
 	astits "github.com/asticode/go-astits"
 	"verif/mc"
@@ -17,6 +18,58 @@ type c09Base struct {
 	PID  uint16
 	Secs [][]byte
 	Exp  []ExpData
+}
+
+type c09Sent struct {
+	unit []byte
+	is   func(*astits.DemuxerData) bool
+}
+
+var (
+	c09SentOnce sync.Once
+	c09Sents    map[uint16]c09Sent
+)
+
+func c09SentinelFor(pid uint16) c09Sent {
+	c09SentOnce.Do(func() {
+		c09Sents = map[uint16]c09Sent{}
+		for _, p := range []uint16{0, 0x1000, 0x10, 0x11, 0x12, 0x14} {
+			u, f := c09Sentinel(p)
+			c09Sents[p] = c09Sent{u, f}
+		}
+	})
+	return c09Sents[pid]
+}
+
+// c09Sentinel builds the valid unit that follows the unit under test: a table the PID may carry, with contents no base uses.
+func c09Sentinel(pid uint16) ([]byte, func(*astits.DemuxerData) bool) {
+	unit := func(sec []byte) []byte { return append([]byte{0}, sec...) }
+	switch {
+	case pid == 0:
+		d := modelPAT(0x7e, 0x1000)
+		return unit(SecPAT(d, ref.SecHdr{CNI: true, Version: 30})), func(x *astits.DemuxerData) bool {
+			return x.PAT != nil && len(x.PAT.Programs) == 1 && x.PAT.Programs[0].ProgramNumber == 0x7e
+		}
+	case pid == 0x1000:
+		d := modelPMT(1, 0x1abc, 1)
+		return unit(SecPMT(d, ref.SecHdr{CNI: true, Version: 30})), func(x *astits.DemuxerData) bool { return x.PMT != nil && x.PMT.PCRPID == 0x1abc }
+	case pid == 0x14:
+		d := modelTOT()
+		d.UTCTime = d.UTCTime.AddDate(1, 2, 3)
+		want := d.UTCTime
+		return unit(SecTOT(d)), func(x *astits.DemuxerData) bool { return x.TOT != nil && x.TOT.UTCTime.Equal(want) }
+	case pid == 0x10:
+		d := modelNIT(1)
+		d.NetworkID = 0x7e7e
+		return unit(SecNIT(d, ref.SecHdr{CNI: true, Version: 30})), func(x *astits.DemuxerData) bool { return x.NIT != nil && x.NIT.NetworkID == 0x7e7e }
+	case pid == 0x12:
+		d := modelEIT(1)
+		d.ServiceID = 0x7e7e
+		return unit(SecEIT(d, ref.SecHdr{CNI: true, Version: 30})), func(x *astits.DemuxerData) bool { return x.EIT != nil && x.EIT.ServiceID == 0x7e7e }
+	}
+	d := modelSDT(1)
+	d.TransportStreamID = 0x7e7e
+	return unit(SecSDT(d, ref.SecHdr{CNI: true, Version: 30})), func(x *astits.DemuxerData) bool { return x.SDT != nil && x.SDT.TransportStreamID == 0x7e7e }
 }
 
 // c09MoreBases: larger units and the second table_id variants (thorough tier).
@@ -83,8 +136,18 @@ func c09Run(c *mc.Ctx, b *c09Base, unit []byte, what string) {
 	}
 	cc := uint8(5)
 	ps = append(ps, Packetize(SUnit{PID: b.PID, PSI: true, Bytes: unit}, nil, &cc, false)...)
+	// a valid unit of the same PID behind it: whatever the unit under test is made of, the next valid table is delivered
+	sent := c09SentinelFor(b.PID)
+	ps = append(ps, Packetize(SUnit{PID: b.PID, PSI: true, Bytes: sent.unit}, nil, &cc, false)...)
+	sentinelOK := sent.is
 	stream := EncodePkts(ps)
 	out := DemuxBytes(stream)
+	if n := len(out.Data); n == 0 || out.Data[n-1].PID != b.PID || !sentinelOK(out.Data[n-1]) {
+		c.Rep.Report("valid-table-behind-the-unit-not-delivered:"+b.Name, map[string]any{"kind": "stream", "base": b.Name, "what": what, "bytes": mc.Hex(stream),
+			"message": fmt.Sprintf("a valid single-section unit follows the unit under test on the same PID; it is not the last datum delivered (%d data, errors: %v)", n, errStrings(out.Errs))})
+	} else {
+		out.Data = out.Data[:n-1]
+	}
 	det := func(msg string) map[string]any {
 		return map[string]any{"kind": "stream", "base": b.Name, "what": what, "bytes": mc.Hex(stream), "message": msg}
 	}
